@@ -149,11 +149,25 @@ func checkReadBufferIndexGuarded(p *Prog, r *Result, pkg *packages.Package, rule
 						return f
 					}
 				}
-				s, ok := canon(be.X)
-				if !ok || !isLenBs(be.Y) {
+				x, y, op := be.X, be.Y, be.Op
+				if isLenBs(x) { // len(p.bs) <= E is E >= len(p.bs), and so on
+					x, y = y, x
+					switch op {
+					case token.LEQ:
+						op = token.GEQ
+					case token.GTR:
+						op = token.LSS
+					case token.LSS:
+						op = token.GTR
+					case token.GEQ:
+						op = token.LEQ
+					}
+				}
+				s, ok := canon(x)
+				if !ok || !isLenBs(y) {
 					return f
 				}
-				inside := (be.Op == token.GEQ && !e.Pol) || (be.Op == token.LSS && e.Pol)
+				inside := (op == token.GEQ && !e.Pol) || (op == token.LSS && e.Pol)
 				if inside {
 					return fact{max(f.upTo, offsetOf(s))}
 				}
